@@ -645,7 +645,17 @@ func (a *ivFn) obligationOf(v ssa.Value) (string, string) {
 	k := kindOfType(v.Type())
 	switch x := v.(type) {
 	case *ssa.BinOp:
-		if !k.ok || k.float || !k.signed {
+		if !k.ok || k.float {
+			return "", ""
+		}
+		if !k.signed {
+			// unsigned accumulators (a magnitude summed up before a sign is applied) wrap just as silently
+			if k.bits == 64 && (x.Op == token.ADD || x.Op == token.MUL) && readsText(a.fn) {
+				if x.Op == token.ADD {
+					return "add", ""
+				}
+				return "mul", ""
+			}
 			return "", ""
 		}
 		switch x.Op {
@@ -959,4 +969,25 @@ func (e *ivEngine) exprText(fn *ssa.Function, in ssa.Instruction, _ string) stri
 		return types.ExprString(x.Lhs[0]) + " " + x.Tok.String() + " " + types.ExprString(x.Rhs[0])
 	}
 	return "?"
+}
+
+// readsText: the function converts text to a value (it has a string or byte-slice parameter). Unsigned arithmetic is an
+// obligation only there; elsewhere (hash folding, probe sequences) wrap-around of unsigned values is the intent.
+func readsText(fn *ssa.Function) bool {
+	for fn.Parent() != nil {
+		fn = fn.Parent()
+	}
+	for _, q := range fn.Params {
+		switch t := q.Type().Underlying().(type) {
+		case *types.Basic:
+			if t.Info()&types.IsString != 0 {
+				return true
+			}
+		case *types.Slice:
+			if b, ok := t.Elem().Underlying().(*types.Basic); ok && b.Kind() == types.Uint8 {
+				return true
+			}
+		}
+	}
+	return false
 }
